@@ -16,6 +16,7 @@ import (
 	"os"
 	"runtime"
 	"strings"
+	"sync/atomic"
 	"time"
 
 	"github.com/jimsnab/go-lane"
@@ -75,7 +76,25 @@ func (cl *client) roundtrip(timeout time.Duration, args ...string) (string, erro
 	return line, nil
 }
 
+// stallNs: the longest gap between two ticks of a 20 ms ticker of this process since the last reset. A gap of seconds
+// means the whole process (harness and emulator alike) was not running — a stopped or thrashing machine — and a
+// duration measured across it says nothing about the emulator.
+var stallNs atomic.Int64
+
+func watchStalls() {
+	last := time.Now()
+	for {
+		time.Sleep(20 * time.Millisecond)
+		now := time.Now()
+		if gap := int64(now.Sub(last)); gap > stallNs.Load() {
+			stallNs.Store(gap)
+		}
+		last = now
+	}
+}
+
 func main() {
+	go watchStalls()
 	seed := flag.Int64("seed", 1, "seed")
 	cycles := flag.Int("cycles", 12, "start/stop cycles")
 	prop := flag.String("property", "C20", "property")
@@ -183,6 +202,7 @@ func main() {
 		time.Sleep(time.Duration(5+r.Intn(30)) * time.Millisecond)
 		// terminate
 		done := make(chan struct{})
+		stallNs.Store(0)
 		t0 := time.Now()
 		pause := time.Duration(5+r.Intn(30)) * time.Microsecond
 		go func() {
@@ -213,7 +233,16 @@ func main() {
 			select {
 			case <-done:
 			case <-time.After(4 * time.Second):
-				fail(cycle, append(scenario, mine...), "Close() did not return within 5.5 s")
+				if stallNs.Load() > int64(time.Second) {
+					// the process itself stood still for more than a second in this window: give Close its time again
+					select {
+					case <-done:
+					case <-time.After(10 * time.Second):
+						fail(cycle, append(scenario, mine...), "Close() did not return within 15.5 s")
+					}
+				} else {
+					fail(cycle, append(scenario, mine...), "Close() did not return within 5.5 s")
+				}
 			}
 			if failures == 0 {
 				note("goroutines of the emulator 1.5 s into Close: " + strings.Join(mine, " || "))
@@ -224,7 +253,11 @@ func main() {
 		}
 		took := time.Since(t0)
 		stats["close_ms_total"] += int(took.Milliseconds())
-		if took > 5*time.Second {
+		if stall := time.Duration(stallNs.Load()); took > 5*time.Second && took-stall <= 5*time.Second {
+			// the harness's own 20 ms ticker was late by `stall`: the machine stood still, not the emulator
+			stats["close_measurements_void_process_stalled"]++
+			note(fmt.Sprintf("Close returned after %v of which the process was not running for %v", took, stall))
+		} else if took > 5*time.Second {
 			fail(cycle, scenario, fmt.Sprintf("Close() took %v", took))
 			break
 		}
